@@ -1,4 +1,5 @@
 import ZV.Model.C06Multi
+import ZV.Model.C06Tbs
 /-! line protocol for C06:
       `c06 cert <der-hex> <canon:0|1> <verified:0|1|u>`
     output `err` or
@@ -7,6 +8,11 @@ import ZV.Model.C06Multi
     `noct` is printed only for canonically encoded certificates (flag supplied by the harness: re-marshalling the
     parsed TBS reproduces RawTBSCertificate); `verified` is the outcome of verifying the certificate's signature
     under its own key (u = the harness has no independent verifier for that algorithm).
+    every summary ends with ` nb=<NotBefore.Unix()> na=<NotAfter.Unix()> vp=<ValidityPeriod> saoid=<arcs of SignatureAlgorithmOID>`
+    (`info=err` if the model cannot decode Validity / the inner AlgorithmIdentifier of a certificate Go accepts).
+      `c06 tbs <der-hex> <canon:0|1> <class>`
+    `ParseTBSCertificate` on the bytes: `err` or `ok v=… raw=<len of Raw> iss=… sub=… spki=…` + fingerprints (of the
+    TBS bytes) + noct + eq + the info suffix.
       `c06 wrap <prefix-hex|-> <der-hex> <suffix-hex|-> <class>`
     output `err` or `ok raw=<length of Raw> md5=… sha1=… sha256=…` for the input prefix ‖ der ‖ suffix.
       `c06 bundle <class> <flags> <der1-hex> … <derk-hex>`
@@ -17,6 +23,31 @@ namespace ZV.C06
 open ZV ZV.Der
 
 def showSpan (off len : Nat) : String := toString off ++ "+" ++ toString len
+
+def showArcs : List Nat → String
+  | [] => ""
+  | [a] => toString a
+  | a :: as => toString a ++ "." ++ showArcs as
+
+def showInfo (tbs : Tbs) : String :=
+  match tbsInfo tbs with
+  | .ok i => " nb=" ++ toString i.notBefore ++ " na=" ++ toString i.notAfter ++ " vp=" ++ toString i.period
+      ++ " saoid=" ++ showArcs i.sigAlgOID
+  | .err => " info=err"
+  | .panic => " info=panic"
+
+/-- summary of `ParseTBSCertificate`'s result -/
+def showTbsCert (t : Elem) (tbs : Tbs) (canon : String) : String :=
+  let c := tbsAsCert t tbs
+  let m := c.meta
+  "v=" ++ toString m.version ++ " raw=" ++ toString c.raw.full.length
+    ++ " iss=" ++ showSpan (tbsOffIssuer t tbs) c.rawIssuer.length
+    ++ " sub=" ++ showSpan (tbsOffSubject t tbs) c.rawSubject.length
+    ++ " spki=" ++ showSpan (tbsOffSPKI t tbs) c.rawSPKI.length
+    ++ " md5=" ++ toHex m.fpMD5 ++ " sha1=" ++ toHex m.fpSHA1 ++ " sha256=" ++ toHex m.fpSHA256
+    ++ " spkifp=" ++ toHex m.spkiFp ++ " tbsfp=" ++ toHex m.tbsFp ++ " spkisub=" ++ toHex m.spkiSubjectFp
+    ++ " noct=" ++ (if canon == "1" then toHex m.noCTFp else "-")
+    ++ " eq=" ++ (if m.issuerEqSubject then "1" else "0") ++ showInfo tbs
 
 def showCert (c : Cert) (canon ver : String) : String :=
   let m := c.meta
@@ -29,7 +60,7 @@ def showCert (c : Cert) (canon ver : String) : String :=
     ++ " md5=" ++ toHex m.fpMD5 ++ " sha1=" ++ toHex m.fpSHA1 ++ " sha256=" ++ toHex m.fpSHA256
     ++ " spkifp=" ++ toHex m.spkiFp ++ " tbsfp=" ++ toHex m.tbsFp ++ " spkisub=" ++ toHex m.spkiSubjectFp
     ++ " noct=" ++ (if canon == "1" then toHex m.noCTFp else "-")
-    ++ " eq=" ++ (if m.issuerEqSubject then "1" else "0") ++ " ss=" ++ ss
+    ++ " eq=" ++ (if m.issuerEqSubject then "1" else "0") ++ " ss=" ++ ss ++ showInfo c.tbs
 
 /-- certificates paired with their (canon, verified) flag characters; missing flags print as `?` -/
 def showCerts : List Cert → List Char → String
@@ -52,6 +83,14 @@ def handle (args : List String) : String :=
     | some bs =>
       match parseCert bs with
       | .ok c => "ok " ++ showCert c canon ver
+      | .err => "err"
+      | .panic => "panic"
+  | ["tbs", hex, canon, _class] =>
+    match ofHex hex with
+    | none => "bad-hex"
+    | some bs =>
+      match parseTbsCertFull bs with
+      | .ok (t, tbs, _) => "ok " ++ showTbsCert t tbs canon
       | .err => "err"
       | .panic => "panic"
   | "bundle" :: _class :: flags :: hexes =>
